@@ -216,9 +216,10 @@ theorem next_bare (o : Opts) (hc : o.colonOperator = false) (hp : o.plusOperator
 /-! ## the token stream of a layout tree -/
 
 mutual
-/-- raw pieces are plain; unquoted block headers are identifiers, quoted ones plain -/
+/-- raw pieces are plain; names contain no CR/LF; unquoted block headers are identifiers, quoted
+ones plain -/
 def ttOK : TT → Bool
-  | .leaf _ n v => segOK n && segOK v
+  | .leaf _ n v => segOK n && segOK v && noNlStr (segVal n)
   | .block _ q n kids => (if q then plainStr n else bareName n) && ttOKList kids
 def ttOKList : List TT → Bool
   | [] => true
@@ -288,9 +289,9 @@ theorem lex_tt (t : TT) (ht : ttOK t = true) (l k : Nat) (rest : Str) (acc : Lis
     simp only [ttOK, Bool.and_eq_true] at ht
     simp only [ttText, ttToks, ttLines, List.length_cons, List.length_nil, List.append_assoc, List.cons_append,
       List.nil_append]
-    rw [show k + (0 + 1 + 1 + 1) = (k + 2) + 1 from by omega, run_seg o ho fold (tabs d) (isWs_tabs d) n ht.1,
+    rw [show k + (0 + 1 + 1 + 1) = (k + 2) + 1 from by omega, run_seg o ho fold (tabs d) (isWs_tabs d) n ht.1.1,
       show k + 2 = (k + 1) + 1 from rfl]
-    have := run_seg o ho fold [' '] (by intro c hc; simp at hc; exact Or.inl hc) v ht.2
+    have := run_seg o ho fold [' '] (by intro c hc; simp at hc; exact Or.inl hc) v ht.1.2
     simp only [List.singleton_append] at this
     rw [this, C01.run_newline kvF o fold]
     simp [Nat.add_assoc]
@@ -728,13 +729,31 @@ theorem plainStr_uv {a : UV} (h : UVOK a = true) : plainStr a.str = true := by
   · simp [tok_plain ho]; decide
   · exact tok_plain hs
 
+theorem noNl_of_plain (s : Str) (h : plainStr s = true) : noNlStr s = true := by
+  simp only [plainStr, List.all_eq_true] at h
+  simp only [noNlStr, Bool.not_eq_true', Bool.or_eq_false_iff, List.contains_eq_mem, decide_eq_false_iff_not]
+  constructor <;> (intro hm; have := h _ hm; simp [plainC] at this)
+
+@[simp] theorem noNlStr_append (a b : Str) : noNlStr (a ++ b) = (noNlStr a && noNlStr b) := by
+  simp only [noNlStr, List.contains_eq_mem, List.mem_append]
+  by_cases h1 : '\n' ∈ a <;> by_cases h2 : '\n' ∈ b <;> by_cases h3 : '\r' ∈ a <;> by_cases h4 : '\r' ∈ b <;>
+    simp [h1, h2, h3, h4]
+
 /-! ### `ttOK` of the line constructors -/
 
 @[simp] theorem ttOK_tRaw (d : Nat) (n : String) (v : Str) :
     ttOK (tRaw d n v) = (plainStr n.toList && plainStr v) := by
-  simp [tRaw, ttOK, segOK, pieceOK]
+  simp only [tRaw, ttOK, segOK, pieceOK, List.all_cons, List.all_nil, Bool.and_true, segVal, Piece.val,
+    List.flatMap_cons, List.flatMap_nil, List.append_nil]
+  by_cases h : plainStr n.toList = true
+  · simp [h, noNl_of_plain _ h]
+  · simp [h]
 @[simp] theorem ttOK_tEsc (d : Nat) (n : String) (v : Str) : ttOK (tEsc d n v) = plainStr n.toList := by
-  simp [tEsc, ttOK, segOK, pieceOK]
+  simp only [tEsc, ttOK, segOK, pieceOK, List.all_cons, List.all_nil, Bool.and_true, segVal, Piece.val,
+    List.flatMap_cons, List.flatMap_nil, List.append_nil]
+  by_cases h : plainStr n.toList = true
+  · simp [h, noNl_of_plain _ h]
+  · simp [h]
 @[simp] theorem ttOK_tInt (d : Nat) (n : String) (i : Int) : ttOK (tInt d n i) = plainStr n.toList := by
   simp [tInt, plainStr_showInt]
 @[simp] theorem ttOK_tBool (d : Nat) (n : String) (b : Bool) : ttOK (tBool d n b) = plainStr n.toList := by
@@ -805,8 +824,9 @@ theorem ttOK_rows (d y : Nat) (rows : List (List Str)) (h : ∀ r ∈ rows, ∀ 
   | nil => rfl
   | cons r rs ih =>
     have hr := plainStr_unwords r (h r (by simp))
-    simp [ttRowsFrom, ttOK, segOK, pieceOK, plainStr_showNat, hr, ih (y + 1) (fun q hq => h q (by simp [hq])), plainC,
-      lit]
+    have hrow : noNlStr ('r' :: 'o' :: 'w' :: showNat y) = true := noNl_of_plain _ (by simp [plainStr_showNat, plainC])
+    simp [ttRowsFrom, ttOK, segOK, pieceOK, segVal, Piece.val, plainStr_showNat, hr, hrow,
+      ih (y + 1) (fun q hq => h q (by simp [hq])), plainC, lit]
 
 theorem rows_plain (size n : Nat) (verts : List DVert) (sel : List DVert → List DVert)
     (hsel : ∀ r, ∀ v ∈ sel r, v ∈ r) (toks : DVert → List Str)
@@ -953,14 +973,16 @@ theorem ttOK_solid (d : Nat) (mb ig : Bool) (s : Solid) (h : SolidOK1 s = true) 
 
 theorem ttOK_fix (d : Nat) (f : Fix) (h : FixOK f = true) : ttOK (ttFix d f) = true := by
   simp only [FixOK, Bool.and_eq_true] at h
-  simp [ttFix, ttOK, segOK, pieceOK, plainStr_pad2, h.2, plainC, lit]
+  have hname : noNlStr ('r' :: 'e' :: 'p' :: 'l' :: 'a' :: 'c' :: 'e' :: pad2 (showInt f.id)) = true :=
+    noNl_of_plain _ (by simp [plainStr_pad2, plainC])
+  simp [ttFix, ttOK, segOK, pieceOK, segVal, Piece.val, plainStr_pad2, h.2, hname, plainC, lit]
 
 theorem plainC_sep (b : Bool) : plainC (outSep b) = true := by cases b <;> decide
 
 theorem ttOK_out (d : Nat) (o : Out) (h : OutOK o = true) : ttOK (ttOut d o) = true := by
   simp only [OutOK, Bool.and_eq_true] at h
-  have hd := tok_plain h.1.1.2
-  simp [ttOut, ttOK, segOK, pieceOK, plainC_sep, hd, plainStr_showInt]
+  have hd := tok_plain h.1.1.1.2
+  simp [ttOut, ttOK, segOK, pieceOK, segVal, Piece.val, plainC_sep, hd, plainStr_showInt, h.2]
 
 theorem ttOK_group (d : Nat) (g : Group) (h : GroupOK g = true) : ttOK (ttGroup d g) = true := by
   simp only [GroupOK] at h
@@ -971,7 +993,8 @@ theorem ttOK_ent (d : Nat) (mb w : Bool) (groups : List Group) (e : Ent) (h : En
   apply ttOK_maybeHidden
   intro d'
   have hkeys : ttOKList ((isort keyLe e.keys).map (fun kv => TT.leaf (d' + 1) [.esc false kv.1] [.esc false kv.2])) = true :=
-    ttOKList_map _ _ (fun _ _ => by simp [ttOK, segOK, pieceOK])
+    ttOKList_map _ _ (fun kv hkv => by
+      simp [ttOK, segOK, pieceOK, segVal, Piece.val, h.keyNl kv ((mem_isort _ _ _).mp hkv)])
   have hfix : ttOKList ((isort fixLe e.fixup).map (ttFix (d' + 1))) = true :=
     ttOKList_map _ _ (fun f hf => ttOK_fix _ f (h.fixes f ((mem_isort _ _ _).mp hf)))
   have hsol : ttOKList (e.solids.map (ttSolid (d' + 1) mb w)) = true :=
@@ -1035,5 +1058,53 @@ theorem ttOK_exportTT (o : ExportOpts) (m : VMap) (h : MapOK1 m) : ttOKList (exp
   cases o.minimal <;> cases decide (m.quickhide > 0) <;>
     simp [ttVerKids, hvis, hview, hcam, hcord, hworld, hents, plainC, bareName, bareC]
 
+
+
+/-! ## the parser admits every name of well-formed text -/
+
+theorem hasNl_false_of_noNl (s : Str) (h : noNlStr s = true) : C01.hasNl s = false := by
+  simpa [noNlStr, C01.hasNl] using h
+
+theorem bareName_plain (n : Str) (h : bareName n = true) : plainStr n = true := by
+  simp only [bareName, Bool.and_eq_true, List.all_eq_true] at h
+  simp only [plainStr, List.all_eq_true]
+  intro c hc
+  have hb := h.2 c hc
+  simp only [plainC, Bool.not_eq_true', Bool.or_eq_false_iff, beq_eq_false_iff_ne, ne_eq]
+  refine ⟨⟨⟨⟨⟨⟨⟨⟨⟨?_, ?_⟩, ?_⟩, ?_⟩, ?_⟩, ?_⟩, ?_⟩, ?_⟩, ?_⟩, ?_⟩ <;> (intro e; subst e; revert hb; decide)
+
+mutual
+theorem okKV_tt (po : C01.ParseOpts) (hv : po.newlineValues = true) (t : TT) (ht : ttOK t = true) :
+    C01.okKV po (convKV (ttKV t)) = true := by
+  match t with
+  | .leaf d n v =>
+    simp only [ttOK, Bool.and_eq_true] at ht
+    simp [ttKV, convKV, C01.okKV, C01.keyOk, C01.valOk, hv, hasNl_false_of_noNl _ ht.2]
+  | .block d q n kids =>
+    simp only [ttOK, Bool.and_eq_true] at ht
+    have hn : noNlStr n = true := by
+      cases q with
+      | true => exact noNl_of_plain n (by simpa using ht.1)
+      | false => exact noNl_of_plain n (bareName_plain n (by simpa using ht.1))
+    simp [ttKV, convKV, C01.okKV, C01.keyOk, hasNl_false_of_noNl _ hn, okList_tt po hv kids ht.2]
+theorem okList_tt (po : C01.ParseOpts) (hv : po.newlineValues = true) (ts : List TT) (ht : ttOKList ts = true) :
+    C01.okList po (convList (ttKVList ts)) = true := by
+  match ts with
+  | [] => rfl
+  | t :: ts =>
+    simp only [ttOKList, Bool.and_eq_true] at ht
+    simp [ttKVList, convList, C01.okList, okKV_tt po hv t ht.1, okList_tt po hv ts ht.2]
+end
+
+/-- **Text level.** Lexing and parsing the text `VMF.export` writes for a well-formed map, with
+the tokenizer and `Keyvalues.parse` models of C02/C03/C01 (any flag environment, `single_line`
+either way, `newline_keys` either way), yields exactly the exported tree. -/
+theorem parse_exportText (po : C01.ParseOpts) (hesc : po.allowEscapes = true) (hsb : po.singleBlock = false)
+    (hv : po.newlineValues = true) (fold : Char → List Char) (o : ExportOpts) (m : VMap) (h : MapOK1 m) :
+    C01.parse TT0 po fold (exportText o m) = .root (convList (exportTree o m)) := by
+  have hok := ttOK_exportTT o m h
+  have := parse_ttTextList po hesc hsb fold (exportTT o m) hok (okList_tt po hv _ hok)
+  rw [ttKV_exportTT] at this
+  exact this
 
 end C06
